@@ -19,7 +19,7 @@ structure TaskInfo where
   succs : List Uid
   member : Bool                -- member of the WBS being scheduled
   resource : Option Nat        -- key of the resource name (none = Python None)
-  milestone : Bool
+  milestone : Bool             -- the *effective* flag: flagged and childless (a flagged task with children is a summary)
   minStart : Option Time
   deriving Inhabited
 
